@@ -47,7 +47,7 @@ MANIFEST = dict(
     note=("Trusted: Lean kernel, Mathlib, axioms propext/Classical.choice/Quot.sound; the hand-written model "
           "(lean/templates/Coords.lean) and its bit-exact correspondence run; the idealisation binary64 -> real is "
           "measured, not proved. The six findings of the first version of this check (asin latitudes, haversine, "
-          "position angle, straight_line domain error) are fixed in /repo by findings.d/proposed-1..4.patch."),
+          "position angle, straight_line domain error) are fixed in /repo by the corresponding fix: commits of /repo."),
     technique="Lean 4 proof over the reals (rotation matrices, Complex.arg) + bit-exact model/implementation correspondence + predicate check",
     ref='6 C05')
 
